@@ -11,11 +11,12 @@ stays blocked in acquire at quiescence while its weight fits into the free capac
 """
 import asyncio
 
-from worlds.common import TICK, simulate
+from worlds.common import TICK, passes_through_repo, simulate
 
 NAME = 'prims.wsem'
-RULE = ('capacity 1..12, 1..6 tasks x 1..3 acquire/hold/release rounds with weights <= capacity, seeded hold and '
-        'think times on a 1/1024 s grid, 0..4 task cancellations at seeded instants')
+RULE = ('capacity 1..12, 1..8 tasks x 1..3 acquire/hold/release rounds, weights mostly from a per-run palette of 1..3 '
+        'values <= capacity (so equal-weight waiters queue), seeded hold and think times on a 1/1024 s grid, '
+        '0..6 task cancellations at seeded instants')
 COMPONENTS = {
     'hailtop.aiotools.weighted_semaphore.WeightedSemaphore': 'real',
     'hailtop.aiotools.weighted_semaphore._AcquireManager': 'real',
@@ -37,8 +38,10 @@ def run(ctx):
 
     cfg = ctx.stream('cfg')
     cap = cfg.rint(1, 12)
-    n_tasks = cfg.rint(1, 6)
-    n_cancels = cfg.draw(5)
+    n_tasks = cfg.rint(1, 8)
+    n_cancels = cfg.draw(7)
+    # weight palette: a few distinct weights per run so that equal-weight waiters queue up behind each other
+    palette = sorted({cfg.rint(1, cap) for _ in range(cfg.rint(1, 3))})
     log = ctx.log
     st = {'held': 0, 'waiting': {}, 'cancel_hit_waiter': False, 'cancel_hit_granted': False, 'max_held': 0}
 
@@ -59,7 +62,7 @@ def run(ctx):
             rounds = s.rint(1, 3)
             for _ in range(rounds):
                 await asyncio.sleep(s.ticks(6))
-                w = s.rint(1, cap)
+                w = s.pick(palette) if s.draw(4) else s.rint(1, cap)
                 mode = s.draw(4)  # 0,1,2 normal; 3 raise in body
                 me = f'h{i}'
                 log.add(me, 'acq_invoke', w)
@@ -123,7 +126,14 @@ def run(ctx):
             ctx.violation('C40', 'liveness', 'C40/blocked_forever', f'tasks {blocked} never finished; held={st["held"]}')
         for t in done:
             if not t.cancelled() and t.exception() is not None:
-                raise t.exception()
+                e = t.exception()
+                from simkit.core import Violation
+                if isinstance(e, Violation) or not passes_through_repo(e):
+                    raise e
+                # an exception raised by the code under test is an outcome, not a harness error: the holder
+                # "exited by error"; the conservation oracle below still applies
+                ctx.probe('repo_exception_in_holder')
+                log.add(t.get_name(), 'holder_failed', type(e).__name__)
         # conservation: everything was released, so the whole capacity must be acquirable at once
         assert st['held'] == 0, st
         try:
